@@ -271,6 +271,25 @@ func (p *dirPlan) done() bool {
 	return p.wDone && p.rDone
 }
 
+// minCapacity keeps a bounded pipe from turning a large transfer into hundreds
+// of thousands of deliveries (each one a synctest.Wait): at most ~5000
+// deliveries are forced by the capacity. A one-byte pipe stays a one-byte pipe
+// for transfers of a few KiB.
+func minCapacity(mode byte, drawn int, payloadBytes int64, writes int) int {
+	if drawn == 0 {
+		return 0
+	}
+	wire := payloadBytes + payloadBytes/5 + int64(writes)*8
+	if mode != wireTypeCompress {
+		// sealed and raw frames are always 32 KiB on the wire
+		wire = (payloadBytes/frameData + int64(writes) + 1) * (frameData + 64)
+	}
+	if m := int(wire / 5000); m > drawn {
+		return m
+	}
+	return drawn
+}
+
 // scenarioStream: part (1), a SecretConnection pair carrying two independent
 // byte streams.
 func (r *runState) scenarioStream() {
@@ -300,6 +319,8 @@ func (r *runState) scenarioStream() {
 		return
 	}
 	plans := [2]*dirPlan{r.planDir(maxTotal), r.planDir(maxTotal)} // [0]: end0 -> end1
+	link.SetCapacity(0, minCapacity(r.mode, caps[0], int64(len(plans[0].data)), len(plans[0].writes)))
+	link.SetCapacity(1, minCapacity(r.mode, caps[1], int64(len(plans[1].data)), len(plans[1].writes)))
 	p := newPump(r.net, r.pumpBudget(), link)
 	p.capReads = r.cfg.Bool(1, 2)
 	go plans[0].writer(sc0)
@@ -400,9 +421,20 @@ func (r *runState) tamperTail(link *SimLink, w io.Writer, pl *dirPlan, p *pump) 
 		pos = len(b) - 1
 	}
 	bit := r.flt.Int(8)
-	b[pos] ^= 1 << uint(bit)
-	link.Replace(0, b)
-	r.c.Fault("frame_bitflip")
+	var forged []byte
+	if r.mode == wireTypeSealed && r.flt.Bool(1, 3) {
+		// instead of a bit flip: replace the sealed frame by an unsealed
+		// (compress-type) frame with a plaintext of the attacker's choice. Read
+		// dispatches on the type of each frame, not on the connection's mode.
+		// Observation only: the sealed mode is not reachable in production.
+		forged = genData(r.flt, r.flt.Range(1, 2000))
+		link.Replace(0, compressedFrame(forged))
+		r.c.Fault("frame_substituted_by_unsealed_frame")
+	} else {
+		b[pos] ^= 1 << uint(bit)
+		link.Replace(0, b)
+		r.c.Fault("frame_bitflip")
+	}
 	r.c.Evals(1)
 	p.capReads = false
 	link.SetReadCap(0, 0)
@@ -411,6 +443,12 @@ func (r *runState) tamperTail(link *SimLink, w io.Writer, pl *dirPlan, p *pump) 
 	pl.mu.Lock()
 	defer pl.mu.Unlock()
 	switch {
+	case forged != nil:
+		if pl.tailDone && pl.tailErr == nil && bytes.Equal(pl.tailData, forged) {
+			r.c.Probe("sealed_connection_accepts_injected_unsealed_frame")
+		} else {
+			r.c.Probe("sealed_connection_rejects_injected_unsealed_frame")
+		}
 	case !pl.tailDone:
 		r.c.Probe("tampered_frame_receiver_waits")
 	case pl.tailErr != nil:
